@@ -143,6 +143,41 @@ func c04RawFamilies(dir string) []c04Case {
 	} {
 		add("tvf", q)
 	}
+	// directly nested table valued functions over files whose time column is first / in the middle / last, reading
+	// every subset of the other columns: field pruning below a function that locates its time field by position
+	for _, order := range [][]string{{"ts", "tag", "val"}, {"tag", "ts", "val"}, {"tag", "val", "ts"}} {
+		var b strings.Builder
+		b.WriteString(strings.Join(order, ",") + "\n")
+		for i, ts := range []string{"2021-01-01T00:00:01Z", "2021-01-01T00:00:02Z", "2021-01-01T00:00:04Z", "2021-01-01T00:00:03Z", "2021-01-01T00:00:09Z"} {
+			vals := map[string]string{"ts": ts, "tag": fmt.Sprintf("g%d", i%2), "val": fmt.Sprint(i + 1)}
+			for j, c := range order {
+				if j > 0 {
+					b.WriteString(",")
+				}
+				b.WriteString(vals[c])
+			}
+			b.WriteString("\n")
+		}
+		f := w("ev_"+strings.Join(order, "_")+".csv", b.String())
+		md := fmt.Sprintf("max_diff_watermark(source=>TABLE(%s), max_diff=>INTERVAL 1 SECOND, time_field=>DESCRIPTOR(ts)) m", f)
+		for _, tf := range []string{"", ", time_field=>DESCRIPTOR(ts)"} {
+			tb := fmt.Sprintf("tumble(source=>TABLE(%s), window_length=>INTERVAL 2 SECONDS%s) e", md, tf)
+			for _, q := range []string{
+				"SELECT e.window_end, COUNT(*) AS c FROM %s GROUP BY e.window_end",
+				"SELECT e.window_end, SUM(e.val) AS s FROM %s GROUP BY e.window_end",
+				"SELECT e.window_end, e.tag, COUNT(*) AS c FROM %s GROUP BY e.window_end, e.tag TRIGGER ON WATERMARK",
+				"SELECT e.window_start, e.window_end FROM %s",
+				"SELECT e.val, e.window_end FROM %s WHERE e.tag = 'g1'",
+				"SELECT e.ts, e.window_end FROM %s",
+				"SELECT COUNT(*) AS c FROM %s",
+			} {
+				add("tvf/nested", fmt.Sprintf(q, tb))
+			}
+		}
+		for _, q := range []string{"SELECT m.val FROM %s", "SELECT m.tag, m.ts FROM %s", "SELECT COUNT(*) AS c FROM %s", "SELECT m.tag, COUNT(*) AS c FROM %s GROUP BY m.tag TRIGGER ON WATERMARK"} {
+			add("tvf/nested", fmt.Sprintf(q, md))
+		}
+	}
 	return out
 }
 
